@@ -210,6 +210,14 @@ impl<'a> G<'a> {
     }
     // a macro argument value. top_comma_terminates: whether a top-level comma would end the value (so we never emit one unmasked)
     fn arg_value(&mut self, _top: bool) {
+        if self.u.coin(1, 12) {
+            // a value that starts with a quoted string is a value, not a name: an '=' after it is text
+            self.feat("string-then-equals-in-value");
+            let q = self.pick(&["\"&p\"", "'q'", "\"s\"", "\"%f(a,b)\"", "\"a=b\"", "'it''s'"]); self.p(q);
+            let mid = self.pick(&["y", "", " ", "&v", "%nm", " k ", "_1"]); self.p(mid);
+            self.mark("=", MK::Masked); let w = self.pick(&["1", "x", "", " 2"]); self.p(w); self.tp();
+            return;
+        }
         let n = self.u.below(4);
         self.arg_pieces(n);
         // a literal '%' as the last character of the value: the delimiter that follows must still be seen
